@@ -66,7 +66,7 @@ theorem mkdir_ok (hN : Normal dst) (hS : Straight fs dst) (h : mkdir fs dst = .o
 theorem symlinkAt_ok {target : Bytes} (hN : Normal dst) (hS : Straight fs dst)
     (h : symlinkAt fs target dst = .ok fs') :
     fs.get dst = none ∧ Frame dst fs fs' ∧ Below dst fs fs' ∧
-      fs'.get dst = some (.symlink target {}) ∧ ProperDirs fs dst := by
+      fs'.get dst = some (.symlink target {} none) ∧ ProperDirs fs dst := by
   unfold symlinkAt at h
   cases hr : resolve fs false dst with
   | error e => simp [hr, bind, Except.bind] at h
@@ -82,7 +82,7 @@ theorem symlinkAt_ok {target : Bytes} (hN : Normal dst) (hS : Straight fs dst)
       · cases h
       · simp only [pure, Except.pure, Except.ok.injEq] at h
         subst h
-        obtain ⟨f, b, g⟩ := create_effect fs hc.1 (.symlink target {})
+        obtain ⟨f, b, g⟩ := create_effect fs hc.1 (.symlink target {} none)
         exact ⟨hc.2, f, b, g, hd⟩
 
 theorem mknod_ok {ma mi : Nat} (hN : Normal dst) (hS : Straight fs dst)
@@ -201,7 +201,7 @@ theorem createTrunc_ok {data : Bytes} (hN : Normal dst) (hS : Straight fs dst)
     · simp only [pure, Except.pure, Except.ok.injEq] at h
       subst h
       refine ⟨frame_set _ _ _, below_set _ _ _, ?_, hd⟩
-      rw [get_set_self]; intro t a e; cases e
+      rw [get_set_self]; intro t a lm e; cases e
     · cases h
     · cases h
     · split at h
@@ -213,7 +213,7 @@ theorem createTrunc_ok {data : Bytes} (hN : Normal dst) (hS : Straight fs dst)
           subst h
           obtain ⟨f, b, g⟩ := create_effect fs hne (.file data {} none)
           refine ⟨f, b, ?_, hd⟩
-          rw [g]; intro t a e; cases e
+          rw [g]; intro t a lm e; cases e
 
 theorem isDir_withAttr {o : Obj} {a : Attr} (h : IsDir (some o)) : IsDir (some (o.withAttr a)) := by
   obtain ⟨a', m, e⟩ := h
@@ -222,9 +222,9 @@ theorem isDir_withAttr {o : Obj} {a : Attr} (h : IsDir (some o)) : IsDir (some (
 
 theorem notLink_withAttr {o : Obj} {a : Attr} (h : NotLink (some o)) :
     NotLink (some (o.withAttr a)) := by
-  intro t a' e
+  intro t a' lm e
   cases o <;> simp [Obj.withAttr] at e
-  exact h _ _ rfl
+  exact h _ _ _ rfl
 
 theorem isDir_withMtime {o : Obj} {a : Option Nat} (h : IsDir (some o)) : IsDir (some (o.withMtime a)) := by
   obtain ⟨a', m, e⟩ := h
@@ -233,9 +233,9 @@ theorem isDir_withMtime {o : Obj} {a : Option Nat} (h : IsDir (some o)) : IsDir 
 
 theorem notLink_withMtime {o : Obj} {a : Option Nat} (h : NotLink (some o)) :
     NotLink (some (o.withMtime a)) := by
-  intro t a' e
+  intro t a' lm e
   cases o <;> simp [Obj.withMtime] at e
-  exact h _ _ rfl
+  exact h _ _ _ rfl
 
 theorem onlyAt_set {o o' : Obj} (hg : fs.get dst = some o) (hd : IsDir (some o) → IsDir (some o'))
     (hl : NotLink (some o) → NotLink (some o')) : OnlyAt dst fs (fs.set dst o') := by
@@ -324,7 +324,38 @@ theorem chtimes_ok {t : Nat} (hN : Normal dst) (hS : Straight fs dst)
       subst h
       exact ⟨onlyAt_set hg isDir_withMtime notLink_withMtime, hd⟩
 
+theorem lchtimes_ok {t : Nat} (hN : Normal dst) (hS : Straight fs dst)
+    (h : lchtimes fs dst t = .ok fs') : OnlyAt dst fs fs' ∧ ProperDirs fs dst := by
+  unfold lchtimes at h
+  cases hr : resolve fs false dst with
+  | error e => simp [hr, bind, Except.bind] at h
+  | ok rp =>
+    obtain ⟨rfl, hd⟩ := resolve_straight hN hS (by simp) hr
+    simp only [hr, bind, Except.bind] at h
+    split at h
+    · split at h
+      · simp only [pure, Except.pure, Except.ok.injEq] at h
+        subst h
+        exact ⟨OnlyAt.refl _ _, hd⟩
+      · cases h
+    · rename_i o hg
+      simp only [pure, Except.pure, Except.ok.injEq] at h
+      subst h
+      exact ⟨onlyAt_set hg isDir_withMtime notLink_withMtime, hd⟩
+
 end calls
+
+/-- **the no-follow time stamp call on a symbolic link**: when the path, resolved without following its
+    last component, names a symbolic link, `lchtimes` sets the link's own mtime (target and attributes
+    kept) and every other object of the file system — the object the link points to in particular — is
+    what it was.  No side condition on the path: the intermediate components may go through links. -/
+theorem lchtimes_symlink {fs : FS} {p : List Name} {rp : RPath} {tg : Bytes} {a : Attr} {m : Option Nat}
+    (t : Nat) (hr : resolve fs false p = .ok rp) (hg : fs.get rp = some (.symlink tg a m)) :
+    lchtimes fs p t = .ok (fs.set rp (.symlink tg a (some t))) ∧
+      ∀ q, q ≠ rp → (fs.set rp (.symlink tg a (some t))).get q = fs.get q := by
+  refine ⟨?_, fun q hq => get_set_ne _ _ hq⟩
+  unfold lchtimes
+  simp [hr, hg, bind, Except.bind, pure, Except.pure, Obj.withMtime]
 
 /-! ### straightness survives a frame step -/
 
@@ -553,8 +584,16 @@ theorem createSymlink_tri (o : Opts) (root : List Name) (s : LState) (name : Byt
   intro f2 hf2
   have fin : ∀ f : FS, G f → Tri (Frame dst s.fs)
       (fun s' => Frame dst s.fs s'.fs ∧ ¬ IsDir (s.fs.get dst) ∧ s'.dirTimes = s.dirTimes)
-      (Pure.pure { fs := f, dirTimes := s.dirTimes } : Except FS LState) :=
-    fun f hf => Tri.pure ⟨hf.1, hf.2, rfl⟩
+      (if m.mtime = 0 then (Pure.pure { fs := f, dirTimes := s.dirTimes } : Except FS LState)
+        else (sys f (lchtimes f dst m.mtime.toNat) >>= fun fs =>
+          (Pure.pure { fs := fs, dirTimes := s.dirTimes } : Except FS LState))) := by
+    intro f hf
+    split
+    · exact Tri.pure ⟨hf.1, hf.2, rfl⟩
+    · refine Tri.bind (Q := G) (Tri.sys hf.1 ?_) (fun f' hf' => Tri.pure ⟨hf'.1, hf'.2, rfl⟩)
+      intro f' h
+      obtain ⟨oa, _⟩ := lchtimes_ok hN (hS.of_frame hf.1) h
+      exact ⟨hf.1.trans oa.frame, hf.2⟩
   simp only [pure_bind]
   split
   · exact fin f2 hf2
@@ -579,7 +618,7 @@ theorem createDevice_tri (o : Opts) (root : List Name) (s : LState) (name : Byte
   · intro f2 h
     obtain ⟨hn, a, _, c, _⟩ := mknod_ok hN (hS.of_frame hf1.1) h
     refine ⟨hf1.1.trans a, ?_, ?_⟩
-    · rw [c]; intro t a e; cases e
+    · rw [c]; intro t a lm e; cases e
     · rcases hf1.2 with h' | rfl
       · exact h'
       · rw [hn]; exact not_isDir_none
